@@ -1,12 +1,19 @@
 """C39 — joins and concatenation equal pandas.
 
-Model:    lean/DaskModel/Model/Join.lean (pandas merge semantics on one pair of frames as the specification;
-          hash join = shuffle both sides + partition-wise join; broadcast joins)
-Theorems: lean/DaskModel/Props/C39.lean
-Tie:      API level: merge / join (inner, left, right, outer, leftsemi; on columns or index; known or unknown
-          divisions; hash or broadcast; tasks or disk shuffle), concat (both axes, interleave_partitions, join
-          inner/outer), merge_asof — vs pandas as multisets of rows (order where promised) and, for single-key
-          merges, vs the Lean specification (`join`) and the Lean plan (`hash-join`).
+Model:    lean/DaskModel/Model/Join.lean (pandas merge semantics on one pair of frames as the specification; hash join =
+          shuffle both sides + partition-wise join; broadcast joins), Model/MergePlan.lean (which plan Merge._lower picks),
+          Model/Align.lean (index joins / interleaved concat on the union divisions), Model/MergeAsof.lean (pair_partitions,
+          tails / heads, the padded partition-wise merge_asof, pandas' per-row asof semantics)
+Theorems: lean/DaskModel/Props/C39.lean, C39Plan.lean, C39Align.lean, C39Asof.lean
+Tie:      function level: merge_plan (Merge._lower's lowered expression vs MergePlan.lower, no compute), pair_partitions
+          (real plan vs the Lean walk + the certificate planOK on the real plan), asof_spec (pandas.merge_asof vs Lean asof),
+          asof_pads (compute_tails / compute_heads graphs vs tailOf / headOf), asof_plan (every output partition of
+          dd.merge_asof, row by row in order, vs Lean planOut on the real plan), index_join_plan (union divisions, the
+          aligned partitions keep rows / are truthful, every output partition vs Lean alignedJoin), interleave_plan;
+          API level: merge / join (inner, left, right, outer, leftsemi; on columns or index; known or unknown divisions;
+          hash or broadcast; tasks or disk shuffle; npartitions=; chained merges), concat (both axes, interleave_partitions,
+          join inner/outer, projections), merge_asof on columns — vs pandas as multisets of rows (order where promised) and,
+          for single-key merges, vs the Lean specification (`join`) and the Lean plan (`hash-join`).
 """
 from __future__ import annotations
 
@@ -23,20 +30,40 @@ LEAN_MODULES = ["DaskModel.Props.C39", "DaskModel.Props.C39Asof", "DaskModel.Pro
 CASE_TIMEOUT_S = 90
 ASSUMPTIONS = ["pandas DataFrame.merge on one pair of partitions is the oracle-checked atom; the Lean `inner/left/leftsemi/"
                "outer/right` specification is diffed against pandas on every merge case (NaN keys match NaN keys)",
-               "both sides are hash-partitioned with the same hash of the key (colocation, C40)"]
-LEVEL_TEXT = ("Lean 4 theorems, for all frames, all hash functions and every number of partitions: the partition-wise join "
-              "after hash-partitioning both sides yields the same multiset of output rows as the global join for inner, left, "
-              "leftsemi, outer and right (hash_join_inner/left/leftsemi/outer/right; colocated_join_eq_global: the same for ANY "
-              "classification of the keys into n classes, e.g. the intervals of aligned divisions of an index join; key lemmas: a left-driven join "
-              "commutes with hash partitioning, the hash classes are a permutation of the frame); the broadcast plans "
-              "(broadcast_inner_eq_global: every partition against every partition; broadcast_split_eq_global: pieces of the "
-              "big side against the hash-partitioned small side) equal the global join; leftsemi_left_broadcast_refuted shows "
-              "why the left side of a leftsemi join must not be broadcast (defect #21, repaired); concat_axis0_den. "
-              "VALIDATED against pandas: index joins with known divisions (that repartitioning to common divisions co-locates the keys is the unproved C44 statement), suffixes, indicator, several key columns, "
-              "concat axis 0/1 with interleave_partitions and join inner/outer, merge_asof (all directions).")
-LEVEL_NOTE = ("Trusted: Lean kernel + standard axioms; pandas merge kernels on one pair of partitions; HashJoinP2P needs "
-              "`distributed` (absent) and is not reachable here.")
-TECHNIQUE = "Lean 4 proof (permutation of hash classes, distribution of joins over concatenation) + differential correspondence against the specification and pandas"
+               "pandas.merge_asof on one pair of frames = the Lean per-row `asof` (last row at/before, first row at/after, the "
+               "closer one with ties going backward, tolerance, allow_exact_matches): diffed on every run (asof_spec); `by=` "
+               "is not modelled",
+               "a shuffle delivers to partition p a permutation of the rows whose key hashes to p (C40); the alignment step "
+               "Repartition(new_divisions=union, force=True) keeps the rows in order and yields partitions truthful for the "
+               "union divisions (C44: Repart.layer_sound for certified layers; checked on the real repartition in every "
+               "index_join_plan / interleave_plan case)",
+               "the scan networks prefix_reduction / suffix_reduction return the last row of the most recent / first row of "
+               "the next non-empty partition (diffed against tailOf / headOf on every run, not proved)"]
+LEVEL_TEXT = ("Lean 4 theorems for ALL frames and partitionings (multisets of output rows; rows are (key, id)): "
+              "(1) hash join = global join for inner/left/leftsemi/outer/right, every hash function and partition count "
+              "(hash_join_*); colocated_join_eq_global / colocated_join_perm: the same for ANY classification of the keys and "
+              "rows in any order inside the partitions; "
+              "(2) the broadcast plans (broadcast_inner_eq_global, broadcast_split_eq_global; leftsemi_left_broadcast_refuted is "
+              "the repaired defect #21); the single-partition plan (joinWith_flatten_left, inner_flatten_right, "
+              "right_flatten_right); which plan Merge._lower picks is modelled (MergePlan.lower, after fix 5e52220) and diffed "
+              "against the lowered expression, with lower_single_sound / lower_broadcast_sound saying the chosen plan is one a "
+              "theorem covers; "
+              "(3) index joins with known divisions: index_join_eq_global / index_outer_eq_global (blockwise join of the "
+              "partitions aligned to the union divisions = global join; the alignment step is the C44 theorem "
+              "Repart.layer_sound, cited as hypothesis and checked on every case); concat_interleave_sorted (rows of all "
+              "frames, truthful for the union divisions); concat_axis0_den; "
+              "(4) merge_asof: pairPartitions_ok (pair_partitions is total and its plan passes the certificate planOK for all "
+              "non-decreasing divisions), asof_plan_eq_global and merge_asof_eq_global (for truthful sorted frames the padded "
+              "partition-wise merge_asof gives every left row, in order, the match it has in the WHOLE right frame, for "
+              "backward / forward / nearest, tolerance and allow_exact_matches). "
+              "VALIDATED against pandas only: suffixes, indicator, several key columns, NaN keys, merges on columns of "
+              "merge_asof (left_on/right_on), concat axis=1 and join=inner/outer on the columns, unknown divisions, disk "
+              "shuffle, that unionDivs is what the real divisions are.")
+LEVEL_NOTE = ("Trusted: Lean kernel + standard axioms; pandas merge / merge_asof kernels on one pair of partitions; HashJoinP2P "
+              "needs `distributed` (absent) and is not reachable here; float `broadcast=` bias is not modelled.")
+TECHNIQUE = ("Lean 4 proof (permutation of key classes, distribution of joins over concatenation, loop invariant of the "
+             "pair_partitions walk, certificate soundness) + function-level and API-level differential correspondence")
+TRUSTED = ["pandas.DataFrame.merge / pandas.merge_asof on in-memory frames"]
 
 NA = 97    # interned NaN key for the model
 
